@@ -46,9 +46,35 @@ Definition run_cal (c : Z * Z * list Z * list Z * adjk * list query) : J :=
   let fuel := Z.to_nat (t1 - t0 + 64) in
   JL (map (run_query hol wk t0 t1 a T fuel) qs).
 
-(* registry: ops = (key, holidays, weekend, t0, t1) with None for an argument left out;
-   the observation of each call is the returned calendar's (holidays, weekend, t0, t1) *)
+(* registry histories: calendar(key, ...) calls, calendar(calendar(key), ...) calls through the fetched object, and
+   queries on the calendar fetched by key; table-path queries populate (and afterwards reuse) the cached tables of
+   the registered object.  The observation of a call is the returned calendar's (holidays, weekend, t0, t1);
+   calendar() registers with the default adj 'm'. *)
 Definition J_args (v : cal_args) : J := let '(h, w, a, b) := v in JL [JLZ h; JLZ w; JZ a; JZ b].
-Definition run_registry (ops : list (Z * option (list Z) * option (list Z) * option Z * option Z)) : J :=
-  let ops' := map (fun o => let '(k, h, w, a, b) := o in (k, call_arg h w a b)) ops in
-  JL (map J_args (snd (calendar_calls default_args [] ops'))).
+Inductive rg_op :=
+  | RCall (k : Z) (h w : option (list Z)) (a b : option Z)
+  | RObj (k : Z) (h w : option (list Z)) (a b : option Z)
+  | RQ (k : Z) (q : query).
+Definition needs_table (q : query) : bool :=
+  match q with
+  | QAdd _ _ n => add_uses_table n
+  | QBdays _ _ _ | QDrange _ _ | QSweep _ _ => true
+  | _ => false
+  end.
+Fixpoint run_rg (st : registry (tentry cal_args (list Z))) (ops : list rg_op) : list J :=
+  match ops with
+  | [] => []
+  | RCall k h w a b :: r =>
+      let '(st1, v) := t_call default_args st k (call_arg h w a b) in J_args v :: run_rg st1 r
+  | RObj k h w a b :: r =>
+      let '(st1, v) := t_obj default_args st k (call_arg_obj h w a b) in J_args v :: run_rg st1 r
+  | RQ k q :: r =>
+      let '(st1, v) := t_call default_args st k None in
+      let '(hh, ww, a, b) := v in
+      let fuel := Z.to_nat (b - a + 64) in
+      if needs_table q then
+        let '(st2, T) := t_use build_args default_args st1 k in
+        run_query (hol_of hh) (wk_of ww) a b AdjM T fuel q :: run_rg st2 r
+      else run_query (hol_of hh) (wk_of ww) a b AdjM [] fuel q :: run_rg st1 r
+  end.
+Definition run_registry (ops : list rg_op) : J := JL (run_rg [] ops).
